@@ -43,6 +43,8 @@ UNITS = {
                            timeout=600, mem_gb=8),
     'U-failed': dict(functions='eval_context::report_all_failed_clauses_for_rules', cls='bounded (2 rule records x status x 3 payload-free child configurations)',
                      quick=reg('rules::eval_context', ['k_failed_00', 'k_failed_01', 'k_failed_12', 'k_failed_20', 'k_failed_11']), thorough=[], assumptions=[STUBS[0]], timeout=900, mem_gb=8),
+    'U-failed-leaf': dict(functions='eval_context::report_all_failed_clauses_for_rules (leaf records)', cls='bounded (one failed unary / comparison record; `from` a literal-variable value or a resolved value, symbolic i64 payloads and negation)',
+                     quick=reg('rules::eval_context', ['k_failed_unary_literal', 'k_failed_unary_resolved', 'k_failed_cmp_from_literal', 'k_failed_cmp_resolved']), thorough=[], assumptions=[STUBS[0]], timeout=900, mem_gb=10),
     'U-binflip': dict(functions='operators: impl Comparator for (CmpOperator, bool), CmpOperator, EqOperation, InOperation, CommonOperator, match_value',
                       cls='complete for a single Int value against an Int literal (all i64 x i64 x not) per operator; type mismatch / unresolved / empty cases',
                       quick=reg('rules::eval::operators', ['k_flip_eq', 'k_flip_lt', 'k_flip_le', 'k_flip_gt', 'k_flip_ge', 'k_flip_in', 'k_flip_not_comparable']),
